@@ -53,3 +53,19 @@ Example C02_example :
   search_one ex_dq 5 [0; 1; 3; 5; 7; 8] [1; 0; 2; 1; 3; 2; 4; 3] 2139095040 3 2 1067450368 [2] [1; 2; 3]
   = Some ([1065353216; 0; 1065353216], [3; 2; 1], [0; 0; 0]).
 Proof. vm_compute. reflexivity. Qed.
+
+(* ---- the search always returns (added).  C02_answer_sound says "whenever the search returns"; this
+   removes the condition: the visited table lets every vertex enter the seed set at most once and
+   every round of the main loop removes one seed, so the loop ends within n + 1 rounds - for every
+   search graph with in-range adjacency, every generator state, every k >= 1, n_neighbors >= 1 and
+   epsilon, and every list of distinct in-range leaf candidates (the empty list included). ---- *)
+From PV Require Import C02Term.
+Theorem C02_search_always_returns :
+  forall (dq : nat -> Z) (n : nat) (indptr indices : list Z),
+    (0 < n)%nat -> (forall c, In c indices -> 0 <= c < Z.of_nat n) ->
+    forall inf k n_neighbors scale cands rng,
+      (0 < k)%nat -> (0 < n_neighbors)%nat ->
+      NoDup cands -> (forall c, In c cands -> 0 <= c < Z.of_nat n) ->
+      search_one dq n indptr indices inf k n_neighbors scale cands rng <> None.
+Proof. exact search_one_returns. Qed.
+Print Assumptions C02_search_always_returns.
